@@ -155,10 +155,12 @@ def acceptFull (n : Nat) (asg : List (Chunk × Nat)) : Bool :=
 /-- acceptance for the short-circuit terminals: every worker evaluated increasing positions, and
     the evaluated positions contain `[0, j]` for the least found position `j`, or everything if
     nothing was found (`hit i` = the pipeline output of source position `i` matches) -/
-def acceptFind (n : Nat) (hit : Nat → Bool) (asg : List (Chunk × Nat)) : Bool :=
+def acceptFind (n : Nat) (hitArr : Array Bool) (asg : List (Chunk × Nat)) : Bool :=
+  let hit : Nat → Bool := fun i => hitArr.getD i false
   let perThread := asg.all fun (c, r) => asg.all fun (c', r') =>
     !(c.tid == c'.tid && c.start < c'.start) || r < r'
-  let evaluated (i : Nat) : Bool := asg.any fun (c, _) => c.start ≤ i && i < c.start + c.items.length
+  let bounds : List (Nat × Nat) := asg.map fun (c, _) => (c.start, c.start + c.items.length)
+  let evaluated (i : Nat) : Bool := bounds.any fun b => b.1 ≤ i && i < b.2
   let found := (List.range n).filter fun i => evaluated i && hit i
   let upto := match found.head? with
     | some j => j + 1
@@ -206,18 +208,17 @@ def answerRun (fs : List String) : String :=
           let isFind := match t with
             | .find _ | .first | .any _ | .all _ | .findIdx _ | .firstIdx => true
             | _ => false
-          let hit : Nat → Bool := fun i =>
-            let q : Val → Bool := match t with
-              | .find q | .any q | .findIdx q => q
-              | .all q => fun x => !q x
-              | _ => fun _ => true
-            match Pf.src.items[i]? with
-            | some x => (Pf.elem x).vals.any q
-            | none => false
+          let qf : Val → Bool := match t with
+            | .find q | .any q | .findIdx q => q
+            | .all q => fun x => !q x
+            | _ => fun _ => true
+          -- only needed for the acceptance of find traces; computed once, O(1) lookups
+          let hitArr : Array Bool :=
+            if traced && isFind then (Pf.src.items.map fun x => (Pf.elem x).vals.any qf).toArray else #[]
           let acc :=
             if !traced then "na"
             else if Pf.params.isSequential then "na"
-            else if isFind then (if acceptFind n hit asgR then "ok" else "REJECT-find")
+            else if isFind then (if acceptFind n hitArr asgR then "ok" else "REJECT-find")
             else (if acceptFull n asgR then "ok" else "REJECT-tiling")
           -- by-key selections: ties are unspecified, compare the extremal key only
           let keyOf : Option (Val → Nat) := match t with
